@@ -15,7 +15,9 @@ import yaql
 from yaql.language import expressions, specs, utils, yaqltypes
 
 GEN = ["registry"]
-RULE = ("random families: 1-4 context layers (20% exclusive) x 0-4 overloads each; signatures with 0-4 visible "
+RULE = ("random families: 1-4 context layers (20% exclusive; plain, MultiContext over 2-3 members, LinkedContext) x 0-4 overloads each, 25% of "
+        "them with a registration history on the same decorated callable (other convention first, strip_hidden_parameters / insert_parameter / "
+        "clone on derived definitions; the model is fed with history-free definitions); signatures with 0-4 visible "
         "parameters, hidden engine/context anywhere, defaults, *args, **kwargs, keyword-only (multi-word names, explicit alias=), AnyOf, lazy Lambda/"
         "YaqlExpression/MappingRule, Constant, types from object + 6-class lattice with a diamond, function/method/extension, "
         "no_kwargs; calls: positional/skipped/keyword (name => v)/python kwargs, receiver or not, probe/constant/raw arguments, "
